@@ -491,6 +491,9 @@ func structOf(t types.Type) *types.Struct {
 // evalGoal evaluates an expression that is about to be proved (not assumed): recursive spec functions are then
 // unfolded in the direction body ==> f(t); in assumption context in the direction f(t) ==> body.
 func (env *SpecEnv) evalGoal(x ast.Expr) SV {
+	cp := *env
+	cp.st = env.st.clone() // snapshot: a finding class of this obligation is evaluated in the state it was generated in
+	env.e.lastGoalEnv = &cp
 	env.e.goalCtx++
 	defer func() { env.e.goalCtx-- }()
 	return env.eval(x)
